@@ -111,8 +111,7 @@ func c12Body(o c12Opts) func() {
 		})
 		var tk *vrt.Thread
 		if o.kill != 0 {
-			tk = vrt.GoProc("fault", 0, func() {
-				vrt.AnyMoment()
+			tk = vrt.GoLazy("fault", 0, func() {
 				// the peer process stops here (this thread can be scheduled at any point of the exchange)
 				vrt.KillProc(o.kill)
 				if o.closed {
